@@ -95,9 +95,13 @@ func (t *typed[K]) PolicyCostsLocked() ([]ristretto.VerifKeyCost, int64, int64) 
 func (t *typed[K]) Hash(k int) (uint64, uint64) { return t.c.VerifHash(t.mk(k)) }
 
 func newTyped[K ristretto.Key](cfg *CacheCfg, mk func(int) K, unmk func(K) int) (cacheAPI, error) {
+	maxCost := cfg.MaxCost
+	if cfg.InternItems > 0 && !cfg.IgnoreIntern {
+		maxCost += cfg.InternItems * measuredIntern
+	}
 	rc := &ristretto.Config[K, *Val]{
 		NumCounters:            cfg.NumCounters,
-		MaxCost:                cfg.MaxCost,
+		MaxCost:                maxCost,
 		BufferItems:            cfg.BufferItems,
 		Metrics:                cfg.Metrics,
 		IgnoreInternalCost:     cfg.IgnoreIntern,
